@@ -35,13 +35,22 @@ def gen_case(seed, tier="quick"):
     law = r.choice(("uniform", "uniform", "uniform", "uniform", "gauss", "lhs", "grid"))
     case = {"format": 1, "property": ID, "engine": "lawsim", "seed": seed, "rng": H(seed, "rng"), "law": law, "fault": None}
     if law == "lhs":
+        dep = r.random() < 0.5          # a box that depends on a parameter, several parameter rows
         if r.random() < 0.4:
-            dom = GG.gen_iv(r, "x")
+            dom = GG.gen_iv(r, "x", "t" if dep else None, 0.9)
         else:
             w, h = r.uniform(0.5, 3), r.uniform(0.5, 3)
             ox, oy = GG.q(r.uniform(-3, 2)), GG.q(r.uniform(-3, 2))
-            dom = {"k": "par", "var": "x", "o": [ox, oy], "c1": [GG.q(ox + w), oy], "c2": [ox, GG.q(oy + h)]}
-        case.update(dom=dom, pspace=[], prow=[], n=r.choice((1, 2, 5, 16, 100, 1000)), reps=5)
+            if dep:
+                b1, b2 = GG.q(r.uniform(0.3, 1.5), 16.0), GG.q(r.uniform(-0.5, 1.0), 16.0)
+                dom = {"k": "par", "var": "x", "o": [ox, oy], "c1": [["aff", GG.q(ox + w), b1, "t"], oy],
+                       "c2": [ox, ["aff", GG.q(oy + h), b2, "t"]]}
+            else:
+                dom = {"k": "par", "var": "x", "o": [ox, oy], "c1": [GG.q(ox + w), oy], "c2": [ox, GG.q(oy + h)]}
+        dep = bool(G.free_vars(dom))
+        k = r.choice((1, 2, 3)) if dep else 0
+        case.update(dom=dom, pspace=[["t", 1]] if dep else [], prow=[], prows=[[GG.q(r.uniform(0, 1))] for _ in range(k)],
+                    n=r.choice((1, 2, 5, 16, 100, 1000)), reps=5)
         return case
     if law == "grid":
         c = r.random()
